@@ -7,35 +7,9 @@
 (* in a group with transform G means G * (own list).                                              *)
 (* A second, independent machine (Rejoin) models the re-joining pass that keeps a path's joints    *)
 (* exactly coincident after each segment has been mapped with independent rounding.                *)
-EXTENDS Integers, Sequences, FiniteSets, TLC, Json
+EXTENDS AffineOps, FiniteSets, TLC, Json
 CONSTANTS MaxOps
 
-Id == <<1,0,0,1,0,0>>
-Mul(M, N) == << M[1]*N[1] + M[3]*N[2],        M[2]*N[1] + M[4]*N[2],
-                M[1]*N[3] + M[3]*N[4],        M[2]*N[3] + M[4]*N[4],
-                M[1]*N[5] + M[3]*N[6] + M[5], M[2]*N[5] + M[4]*N[6] + M[6] >>
-Apply(M, p) == << M[1]*p[1] + M[3]*p[2] + M[5], M[2]*p[1] + M[4]*p[2] + M[6] >>
-Det(M) == M[1]*M[4] - M[2]*M[3]
-(* the operations of SVG 1.1 section 7.6 with lattice arguments: rotations by multiples of 90    *)
-(* degrees (exact integer matrices; the harness also uses 15-degree multiples numerically),     *)
-(* skews by 45 degrees (tan = 1) and 0                                                           *)
-Cos90(q) == CASE q % 4 = 0 -> 1 [] q % 4 = 1 -> 0 [] q % 4 = 2 -> -1 [] OTHER -> 0
-Sin90(q) == CASE q % 4 = 0 -> 0 [] q % 4 = 1 -> 1 [] q % 4 = 2 -> 0 [] OTHER -> -1
-Translate(tx, ty) == <<1,0,0,1,tx,ty>>
-Scale(sx, sy) == <<sx,0,0,sy,0,0>>
-Rot(q) == <<Cos90(q), Sin90(q), -Sin90(q), Cos90(q), 0, 0>>
-RotAbout(q, cx, cy) == Mul(Mul(Translate(cx, cy), Rot(q)), Translate(-cx, -cy))
-SkewX(k) == <<1,0,k,1,0,0>>        \* skewX(45 k degrees) for k in {-1,0,1}: tan = k
-SkewY(k) == <<1,k,0,1,0,0>>
-OpMatrix(o) == CASE o.k = "translate"  -> Translate(o.a[1], o.a[2])
-                 [] o.k = "translate1" -> Translate(o.a[1], 0)              \* translate(tx): ty defaults to 0
-                 [] o.k = "scale"      -> Scale(o.a[1], o.a[2])
-                 [] o.k = "scale1"     -> Scale(o.a[1], o.a[1])             \* scale(s): sy defaults to sx
-                 [] o.k = "rotate"     -> Rot(o.a[1])
-                 [] o.k = "rotatec"    -> RotAbout(o.a[1], o.a[2], o.a[3])
-                 [] o.k = "skewX"      -> SkewX(o.a[1])
-                 [] o.k = "skewY"      -> SkewY(o.a[1])
-                 [] o.k = "matrix"     -> o.a
 Ops == { [k |-> "translate", a |-> <<3, -2>>], [k |-> "translate1", a |-> <<5>>],
          [k |-> "scale", a |-> <<2, 3>>], [k |-> "scale", a |-> <<-1, 1>>], [k |-> "scale1", a |-> <<2>>], [k |-> "scale1", a |-> <<-3>>],
          [k |-> "rotate", a |-> <<1>>], [k |-> "rotate", a |-> <<2>>], [k |-> "rotatec", a |-> <<1, 4, 1>>], [k |-> "rotatec", a |-> <<3, -2, 5>>],
